@@ -47,6 +47,18 @@ CHECKS = {
         BASE_NOTE + 'tomli and the import machinery are exercised by the correspondence only; set-iteration order in merge is covered by repeated hash seeds in the thorough tier.',
         'DESIGN.md section 5 C20',
     ),
+    'C17': (
+        'Rocq proof over an exact-rational selector (invariants by induction over request histories, refuted full claim by vm_compute witness) + bit-exact PrimFloat twin for the correspondence',
+        'Theorems (Properties/C17.v) for every valid variant set (positive integer/fractional/omitted targets) and every request '
+        'count: selection never fails; no variant is ever a whole request ahead of its normalised share; with two variants the '
+        'deviation is below one request; the claimed one-request bound is REFUTED for >= 3 variants (witness 7,10,11,12,7,9 @ 47, '
+        'known finding) and replaced by the proved k-1 lower bound; Latest picks the newest generation of the highest release '
+        'having one, or of the configured release. PARTIAL: the theorems are over exact rationals while the code computes in '
+        'binary64 (incl. CPython 3.12 compensated sum, modelled); the float twin must match the real ABTest bit-exactly on every '
+        'generated history, the rational model on all histories without a (near-)tie; refresher thread timing is runtime.',
+        BASE_NOTE + 'Coq primitive floats (kernel primitives) are used by the float twin only; the rational/float gap is measured per run.',
+        'DESIGN.md section 5 C17',
+    ),
 }
 NOT_YET = 'model and theorems not built yet in this round (planned, see DESIGN.md section 5/9)'
 
